@@ -259,7 +259,10 @@ class HTTPURLValidator(Validator):
         url = element.value
         if url is None:
             return True
-        parsed = self.urlparse.urlparse(url)
+        try:
+            parsed = self.urlparse.urlparse(url)
+        except ValueError:
+            return self.note_error(element, state, "bad_format")
 
         for part in self.all_parts:
             try:
